@@ -90,6 +90,8 @@ class FakeOS:
         self.nwrites += 1
         if i in self.fail_writes:
             raise OSError("write failed")
+        if not isinstance(data, bytes):
+            data = mkbytes(list(data))      # the device has the bytes now: later changes to a buffer are not seen
         self.writes.append(data)
         if self.on_write is not None:
             self.on_write(data)
